@@ -1990,7 +1990,12 @@ void run_world(const J &plan, RunCtx &ctx)
 				sim_log(EV_USER, 7, oi);
 				if (k == "stop") {
 					W.oper_busy = true;
+					// (rtr_stop joins the socket thread, which may sit in a non-cancellable retry sleep of any length the
+					// cache was allowed to set; sockets stopped later keep polling meanwhile: step / time limits reached while
+					// an operator stop is blocked are not findings)
+					g_teardown_only = true;
 					rtr_mgr_stop(W.conf);
+					g_teardown_only = false;
 					for (int again = 0; again < 8; again++) {
 						bool running = false;
 						for (int i = 0; i < W.n; i++)
@@ -2074,7 +2079,9 @@ void run_world(const J &plan, RunCtx &ctx)
 					W.oper_busy = true;
 					if (g)
 						g->removing = true;
+					g_teardown_only = true;
 					int r2 = rtr_mgr_remove_group(W.conf, (unsigned)pref);
+					g_teardown_only = false;
 					if (g)
 						g->removing = false;
 					W.oper_busy = false;
